@@ -970,6 +970,15 @@ impl CxxCodeBodyTranslator {
                     }
                 }
                 ConstantValue::Integer(v) => v.to_string(),
+                // "inf" and "NaN" aren't C++ tokens
+                ConstantValue::Float(v) if v.is_nan() => "qQNaN()".to_owned(),
+                ConstantValue::Float(v) if v.is_infinite() => {
+                    if v.is_sign_positive() {
+                        "qInf()".to_owned()
+                    } else {
+                        "-qInf()".to_owned()
+                    }
+                }
                 ConstantValue::Float(v) => format!("{v:e}"),
                 ConstantValue::CString(v) => format_cxx_narrow_string_literal(v),
                 ConstantValue::QString(v) => {
